@@ -155,7 +155,7 @@ func doRegex(spec string) (out string) {
 
 var reAtoms = []string{"a", "b", "ab", ".", "[ab]", "[^a]", "\\d", "\\w+", "(a)", "(b|c)", "(a+)(b*)", "a*", "b?", "^", "$", "x{2}", "(?i)A", "[0-9]+", "(", ")", "[", "*", "a**", "\\", "(?P<n>a)", "a|", "\\s"}
 var reSubjects = []string{"", "a", "ab", "abc", "aab", "bbb", "xx", "a1b22", "A", "hello world", "aaa", "cab", "b a"}
-var reTemplates = []string{"", "x", "$1", "[$1]", "$2$1", "$0", "$3", "$1x", "a$1b$2c", "$10", "$11", "$0x", "[$0y]", "$5x", "$1y", "$2_", "$12", "$21", "$35", "$9z", "$1$1", "$2x$1", "$01", "$00", "$007", "$05", "$050", "$09x", "$10", "$100"}
+var reTemplates = []string{"", "x", "$1", "[$1]", "$2$1", "$0", "$3", "$1x", "a$1b$2c", "$10", "$11", "$0x", "[$0y]", "$5x", "$1y", "$2_", "$12", "$21", "$35", "$9z", "$1$1", "$2x$1", "$01", "$00", "$007", "$05", "$050", "$09x", "$10", "$100", "$100000000000000000000", "[$18446744073709551616]", "$9223372036854775808", "$00000000000000000001", "$12345678901234567890123", "\\", "x\\", "$1\\"}
 
 func genC16(o *cw) {
 	// sequential cache histories: capacities 0..5, key alphabets, lengths
